@@ -28,7 +28,7 @@ publish = false
 [workspace]
 
 [dependencies]
-quinn-proto = { path = "%s/quinn-proto", default-features = false }
+quinn-proto = { path = "%s/quinn-proto", default-features = false, features = ["bloom"] }
 quinn-udp = { path = "%s/quinn-udp", default-features = false }
 
 [patch.crates-io]
